@@ -28,6 +28,8 @@ def configs(t):
         cfg(3, 4, 0, so='CORE', core=['mm'], cost=5),
         cfg(2, 5, 0, rules=True, F=1, faults=['crash'], cost=4),
         cfg(2, 3, 1, rules=True, requests=RQ, warm=5, cost=4),
+        # a second request (restart then shutdown, or the reverse) while the first one still has a process to stop
+        cfg(2, 4, 0, rules=True, requests=RQ, warm=5, R=2, cost=5),
         cfg(3, 4, 0, late=[2], warm=6, cost=4),
         cfg(2, 5, 1, F=1, faults=['stall'], warm=5, cost=5),
     ]
